@@ -21,7 +21,8 @@ def wrapped_symbols():
     global WRAPPED
     if WRAPPED is None:
         src = open(os.path.join(HD, "hwrap.c")).read()
-        names = set(re.findall(r"^WRAP_\w+\((\w+),", src, flags=re.M)) | set(re.findall(r"__wrap__(\w+)_chk\(", src))
+        body = "\n".join(ln for ln in src.splitlines() if not ln.startswith("#define"))
+        names = set(re.findall(r"\bWRAP_\w+\((\w+)[,)]", body)) | set(re.findall(r"__wrap__(\w+)_chk\(", body))
         WRAPPED = sorted("_%s_chk" % n for n in names if n != "##NAME##")
     return WRAPPED
 
